@@ -55,6 +55,9 @@ CLAIMED["C20"] = ("E-math", "cnl::exp2 over every scaled_integer format with an 
 CLAIMED["C12"] = ("E-native", "Generated kernels (9 wrapper nestings x 8 built-in types x 33 operator forms, frozen instantiable universe) compare every native-tag wrapper expression with the same built-in expression in the same binary - value and result type - "
                   "on exhaustive 8-bit (thorough: 16-bit) operand pairs and boundary/random pairs for wider types, in the sanitizer build and in the suite's own -O2 -DNDEBUG build; plus the documented fixed-point kernels against shift-and-operate twins. "
                   "Equivalence as compiled IR / over all 2^64 operand pairs is NOT claimed (out of reach of execution).", "DESIGN.md §4 C12 and §5", "differential execution against the built-in twin expression under sanitizers and in the release configuration")
+CLAIMED["C10"] = ("E-wide", "wide_integer over single-word and multi-limb storage (8/16/32/64-bit limbs, signed/unsigned, 65..2048 digits): operands are written into and results read from the limb array directly; + - * / % & | ^ unary -, ++/--, shifts by every class of count, "
+                  "six comparisons, conversions to/from 32/64-bit integers and three floating types, decimal text and numeric_limits are logged and compared offline with python integers reduced to N-bit two's complement; ASan+UBSan watch uintwide_t.", "DESIGN.md §4 C10",
+                  "sanitizer-instrumented execution with an offline big-integer checker over the recorded event log")
 PLANNED = {}
 
 
